@@ -126,7 +126,7 @@ def _plain(res):
             "paths": res.paths, "gen_s": res.gen_s, "assumed": res.assumed, "cases": res.cases}
 
 
-def run(run, contracts, spec_funcs, adts=None, instantiate=None, jobs=16, timeout_ms=10000, all_contracts=None):
+def run(run, contracts, spec_funcs, adts=None, instantiate=None, jobs=16, timeout_ms=10000, all_contracts=None, skip=None):
     """Verify `contracts` (those not marked assumed); `all_contracts` supply callee contracts.
     `instantiate(contract, model_inputs) -> (func, args, kwargs)` builds a concrete call for replay.
     Returns {qualname: 'proved' | 'known' | 'degraded' | 'violated'}."""
@@ -147,6 +147,9 @@ def run(run, contracts, spec_funcs, adts=None, instantiate=None, jobs=16, timeou
     _W.clear()
     verdicts = {}
     for c, res in zip(todo, results):
+        if skip is not None:
+            # clauses that belong to another property's reading of a shared contract
+            res["obligations"] = [o for o in res["obligations"] if not skip(o["id"])]
         verdicts[c.qualname] = _account(run, c, res, spec_funcs, instantiate)
     for c in all_contracts:
         if c.assumed:
